@@ -57,6 +57,10 @@ fn real_main(args: Vec<String>) -> i32 {
             bv::props::c20::tracer_main();
             0
         }
+        "known1" => {
+            let Some(prop) = args.get(2).and_then(|id| bv::props::find(id)) else { usage() };
+            driver::known_one(prop.as_ref(), &args[3])
+        }
         "shrink" => {
             let Some(prop) = args.get(2).and_then(|id| bv::props::find(id)) else { usage() };
             driver::shrink_file(prop.as_ref(), &args[3])
@@ -84,7 +88,11 @@ fn real_main(args: Vec<String>) -> i32 {
                 let (ps, idx, len) = (parts[0], parts[1].parse::<u64>().unwrap_or(0), parts[2].parse::<usize>().unwrap_or(200));
                 let (prop, stream) = ps.split_once('/').unwrap_or((ps, ""));
                 let tape = driver::tape_for(seed, prop, stream, idx, len);
-                println!("{}", bv::genp::wild::generate(&tape).src);
+                if parts.get(3) == Some(&"core") {
+                    println!("{}", bv::genp::prog::generate(&tape, bv::genp::prog::Opts::core()).src);
+                } else {
+                    println!("{}", bv::genp::wild::generate(&tape).src);
+                }
                 return 0;
             }
             for i in 0..n {
